@@ -24,6 +24,7 @@ var (
 	Seed      = flag.Uint64("seed", 1, "seed")
 	Corpus    = flag.String("corpus", "", "corpus directory to replay first (optional)")
 	Replay    = flag.String("replay", "", "replay a single history file (events only are used)")
+	FreeWant  = flag.Int("free_want", 0, "free-running runs: stop only at a failure with this exit status (0: at the first failure of any kind)")
 	Hang      = flag.Int("hang", 90, "exit with status 4 when no history step completes for this many (real) seconds: the code under test hangs or livelocks; 0 disables")
 )
 
